@@ -835,7 +835,13 @@ async fn run(_tier: Tier) {
             let (conn, tr) = load_balancer::Connection::<RequestMessage<Vec<u8>>>::with_config(lcfg);
             tokio::spawn(tr.run());
             for s in 0..kn.n_servers {
-                let cc = load_balancer::ConnConfig::new();
+                // Burst limits per upstream (None = unlimited).
+                let mut cc = load_balancer::ConnConfig::new();
+                if sim::chance("cfg.lb_burst_limit", 1, 2) {
+                    cc.set_max_burst(Some(1 + sim::draw("cfg.lb_max_burst", 4)));
+                    cc.set_burst_interval(Duration::from_millis(*sim::pick("cfg.lb_burst_interval_ms", &[1000u64, 100, 10_000])));
+                    sim::stat("probe.load_balancer_burst_limit");
+                }
                 if sim::chance("cfg.upstream_stream", 1, 3) {
                     let (c, t) = multi_stream::Connection::with_config(mk_st(s), ms_cfg.clone());
                     tokio::spawn(t.run());
